@@ -108,6 +108,18 @@ fn main() {
                 }
                 println!("  abandon x{} => {}; debug size {} -> {}", n, last, before, format!("{:?}", vm).len());
             }
+            other if other.starts_with("prepare:") => {
+                // prepare:<n>:<form> — prepare the form n times without ever running it; report the debug-size growth
+                let rest = &other["prepare:".len()..];
+                let (n, form) = rest.split_once(':').unwrap();
+                let n: usize = n.parse().unwrap();
+                let before = format!("{:?}", vm).len();
+                let (cell, _) = marwood::parse::parse_text(form).unwrap();
+                for _ in 0..n {
+                    vm.prepare_eval(&cell).unwrap();
+                }
+                println!("  prepare {} x{}; debug size {} -> {}", form.trim(), n, before, format!("{:?}", vm).len());
+            }
             other if other.starts_with("repeat:") => {
                 // repeat:<n>:<form> — evaluate the form n times in one VM and report the size of the VM's debug rendering
                 // (proportional to heap capacity) before and after
